@@ -166,6 +166,22 @@ def _work(args):
     return check_defs(scratch, items)
 
 
+def pmap(fn, items, procs, timeout=3000):
+    """Fork-pool map with an overall timeout (a stuck pool is a machinery failure, never a hang)."""
+    import multiprocessing as mp
+    if procs <= 1 or len(items) <= 1:
+        return [fn(x) for x in items]
+    pool = mp.get_context("fork").Pool(min(procs, len(items)))
+    try:
+        res = pool.map_async(fn, items, 1).get(timeout)
+        pool.close()
+        return res
+    except mp.TimeoutError:
+        raise common.MachineryError(f"worker pool did not finish within {timeout}s")
+    finally:
+        pool.terminate()
+
+
 def gather_items(states):
     """Flatten TLC batches into work items; strict declarations must load, candidates may."""
     items = []
@@ -192,7 +208,7 @@ def check_function_half(ctx):
                                     workers=2)
     items, n_cases = gather_items(states)
     chunks = [(ctx.scratch, items[i:i + CHUNK]) for i in range(0, len(items), CHUNK)]
-    results = common.parallel_map(_work, chunks, procs=PROCS)
+    results = pmap(_work, chunks, PROCS)
     n_loaded = evals = nontriv = 0
     rejected_must, rejected_cand = [], 0
     must = {(it[1], it[2]) for it in items if it[4]}
@@ -226,8 +242,8 @@ def check_function_half(ctx):
     oracle.finish_cov(ctx, n_loaded, nontriv,
                       "every legal graph declaration (r/o/unset) of succeeded, failed, x, y, expired, submit-failed, "
                       "submitted without a user expression (540), plus user and/or expressions (all <= 2 leaves over the 7 "
-                      "variables under every strictly consistent declaration, 3 leaves over a 4-variable pool under one "
-                      "declaration; thorough: one leaf more), each x all 128 subsets of completed outputs; non-trivial = "
+                      "variables under every strictly consistent declaration, 3 leaves over succeeded/failed/x under one "
+                      "declaration; thorough: one leaf more, expired added), each x all 128 subsets of completed outputs; non-trivial = "
                       "definitions whose complete-set is not a single-variable cut",
                       samples, exhaustive=True)
     ctx.coverage["evaluations"] = ctx.coverage.get("evaluations", 0) - n_loaded + evals
